@@ -9,7 +9,7 @@ LEAN_TARGETS = ['TxV.Props.C15']
 PROP_MODULES = ['TxV.Props.C15']
 AUDIT = 'Audit/C15.lean'
 ANCHORS = ['txtorcon/onion.py', 'txtorcon/torcontrolprotocol.py']
-RULE = ('real EphemeralOnionService.create() (and, for a fifth of the cases, FilesystemOnionService.create() with the events arriving before the SETCONF is acknowledged) on the real protocol against the fake Tor: histories of HS_DESC UPLOAD / UPLOADED / FAILED events '
+RULE = ('real EphemeralOnionService.create() (and, for a fifth of the cases, FilesystemOnionService.create() / FilesystemAuthenticatedOnionService.create() with the events arriving before the SETCONF is acknowledged) on the real protocol against the fake Tor: histories of HS_DESC UPLOAD / UPLOADED / FAILED events '
         'over 1..4 directories (named by fingerprint, or by LongName with a nickname shared by all of them) for the service itself and for a second service sharing directories, in both waiting modes, with the control connection lost at a random position in some histories, with the ADD_ONION '
         'reply released before, between or after the events; after every input the state of the create() Deferred and the HS_DESC subscription '
         'are recorded. Quick: random histories; thorough: all orderings of per-directory event scripts for <= 3 directories. '
@@ -105,9 +105,54 @@ class FsImpl(Impl):
         return [self.result[0] if self.result else 'none', 'sub' if 'HS_DESC' in self.st.proto.events else 'unsub']
 
 
+_RSA = []
+
+
+def rsa_key_pem():
+    """one RSA-1024 key for the whole run (an authenticated filesystem service is recognised by the permanent id of the key in
+    its directory); returns (pem bytes, permanent id as txtorcon computes it)"""
+    if not _RSA:
+        from cryptography.hazmat.primitives.asymmetric import rsa
+        from cryptography.hazmat.primitives import serialization
+        from cryptography.hazmat.backends import default_backend
+        from txtorcon.onion import _compute_permanent_id
+        key = rsa.generate_private_key(public_exponent=65537, key_size=1024, backend=default_backend())
+        pem = key.private_bytes(serialization.Encoding.PEM, serialization.PrivateFormat.TraditionalOpenSSL, serialization.NoEncryption())
+        _RSA.append((pem, _compute_permanent_id(key)))
+    return _RSA[0]
+
+
+class FsAuthImpl(FsImpl):
+    """the same wait entered through FilesystemAuthenticatedOnionService.create() (basic client authorisation, version 2):
+    the service's events carry the permanent id of the key in its directory"""
+
+    def __init__(self, await_all, style='fp', reason='UPLOAD_REJECTED'):
+        import os, tempfile
+        self.style = style
+        self.reason = (' REASON=' + reason) if reason else ''
+        from harness.simtor import SimTor
+        from txtorcon import TorConfig
+        from txtorcon.onion import FilesystemAuthenticatedOnionService, AuthBasic
+        self.st = SimTor().connect()
+        self.cfg = TorConfig(self.st.proto)
+        pem, permid = rsa_key_pem()
+        self.own = permid
+        self.other = 'otherservice0001'
+        self.tmp = tempfile.mkdtemp(prefix='c15fsa')
+        with open(os.path.join(self.tmp, 'private_key'), 'wb') as f:
+            f.write(pem)
+        with open(os.path.join(self.tmp, 'hostname'), 'w') as f:
+            f.write('clienthost00001a.onion cookiecookiecookie0000 # client: alice\n')
+        self.st.hold_prefixes.add('SETCONF')
+        self.result = []
+        d = FilesystemAuthenticatedOnionService.create(None, self.cfg, self.tmp, ['80 127.0.0.1:8080'], auth=AuthBasic(['alice']), version=2,
+                                                       await_all_uploads=await_all)
+        d.addCallbacks(lambda r: self.result.append('ok'), lambda f: self.result.append('fail') and None)
+
+
 def run_impl(c):
-    if c.get('kind') == 'fs':
-        im = FsImpl(c['await_all'], c.get('names', 'fp'), c.get('reason', 'UPLOAD_REJECTED'))
+    if c.get('kind') in ('fs', 'fsauth'):
+        im = (FsImpl if c['kind'] == 'fs' else FsAuthImpl)(c['await_all'], c.get('names', 'fp'), c.get('reason', 'UPLOAD_REJECTED'))
         try:
             for op in c['ops']:
                 if op[0] == 'ev':
@@ -179,7 +224,7 @@ def gen_cases(rng, tier):
             # a filesystem service: the events arrive while the SETCONF is unanswered; what is compared is the state after the
             # acknowledgement (for the model: the address is known from the start)
             evs = [op for op in gen_history(rng) if op[0] == 'ev']
-            yield {'kind': 'fs', 'await_all': rng.random() < 0.5, 'ops': [['reply']] + evs, 'names': rng.choice(['fp', 'longname']),
+            yield {'kind': rng.choice(['fs', 'fsauth']), 'await_all': rng.random() < 0.5, 'ops': [['reply']] + evs, 'names': rng.choice(['fp', 'longname']),
                    'reason': rng.choice(['UPLOAD_REJECTED', 'UNEXPECTED', None])}
             continue
         yield {'await_all': rng.random() < 0.5, 'ops': gen_history(rng), 'names': rng.choice(['fp', 'fp', 'longname', 'named']),
@@ -252,12 +297,12 @@ def run_cases(cases, drv, tier):
                 m, s = o.split(' # ')
                 model.append(m.split(' '))
                 spec.append(s.split(' '))
-            if c.get('kind') == 'fs':
+            if c.get('kind') in ('fs', 'fsauth'):
                 model, spec = model[-1:], spec[-1:]
         fired = im and im[-1][0] != 'none'
         own_evs = sum(1 for op in c['ops'] if op[0] == 'ev' and op[2])
         lost = any(op[0] == 'lost' for op in c['ops'])
-        tags = ['filesystem' if c.get('kind') == 'fs' else 'ephemeral', 'all' if c['await_all'] else 'any', 'outcome=' + (im[-1][0] if im else 'none'),
+        tags = [{'fs': 'filesystem', 'fsauth': 'filesystem-authenticated'}.get(c.get('kind'), 'ephemeral'), 'all' if c['await_all'] else 'any', 'outcome=' + (im[-1][0] if im else 'none'),
                 'reply@%s' % ('start' if c['ops'] and c['ops'][0][0] == 'reply' else 'later'), 'H' if h else 'outsideH:' + why] + (['connection-lost'] if lost else [])
         keep_spec = h or why == 'foreign-uploaded-shared-dir'
         res.append(Result(c, im, model, spec if keep_spec else None, in_h=h, nontrivial=bool(fired) or own_evs >= 3, tags=tags))
